@@ -82,9 +82,18 @@ TEXT['C04'] = dict(
     note=BOUNDED_NOTE,
     technique='bounded exhaustive/randomised sequence checking of the real class against a global-array model')
 
+TEXT['C06'] = dict(
+    category='other',
+    text='Bounded stand-in: the real constructors, transposes, reductions, gathers and setupSave run on a simulated MPI that '
+         'raises on any mismatched or missing collective, with seeded arrival jitter and a plot-only rank; route maps are '
+         'recomputed under several interpreter hash seeds and must coincide. The relational (2-safety) trace contracts of '
+         'DESIGN C06 are not built yet.',
+    note=BOUNDED_NOTE + 'Deadlock freedom beyond trace equality rests on the assumed MPI progress contract.',
+    technique='bounded run-time checking under simulated MPI with collective-matching detection; hash-seed sweep of the route search')
+
 NOT_APPLICABLE = {
     'C19': 'compares compiled pyccel artefacts with their Python source: translation validation; no deductive verifier for the '
            'generated Fortran/C is installed (DESIGN.md, C19)',
 }
-for _p in [ 'C05', 'C06', 'C08', 'C09', 'C12', 'C13', 'C14', 'C15', 'C17', 'C18']:
+for _p in [ 'C05', 'C08', 'C09', 'C12', 'C13', 'C14', 'C15', 'C17', 'C18']:
     NOT_APPLICABLE[_p] = 'check not built yet in this session (planned, see DESIGN.md); not claimed until its contracts discharge'
